@@ -294,7 +294,7 @@ def typeName : Value → String
   | .nil => "none"
   | .obj _ => "listener"
   | .cont _ => "array"
-  | .arr _ => "array"
+  | .arr _ => "const array"
 
 /-- `if (x) println (tag + " " + x.id) else println (tag + " 0")` for a listener value `x` -/
 def sayId (s : State) (tag : String) (r : WeakRef) : State :=
@@ -402,21 +402,23 @@ def fanOut (cfg : Cfg) (s : State) (src : Src) (run : State → ObjId → Res) :
   | .group rs => fanLoop run rs s
   | .ub => .ub
 
-/-- `OP_LOAD_FIELD_VAR` (`src.fld = x`): `a.listenerValue()` accepts a single listener only; with
-    the suggested repair an array is fanned out like a command -/
+/-- `OP_LOAD_FIELD_VAR` (`src.fld = x`): `a.listenerValue()` accepts a single listener only and
+    rejects an array by its type (the pointer is not followed).  With the suggested repair
+    (`cfg.fieldFan`) an array of more than one listener is fanned out over a copy, exactly like a
+    command in `ExecCmdMethodCommon`. -/
 def fieldSet (cfg : Cfg) (s : State) (src : Src) (x : Nat) : Res :=
   let setOne : State → ObjId → Res := fun st o => .ok { st with fld := upd st.fld o x }
   match evalSrc cfg s src with
   | .nil => .ok (say s "!nil")
   | .obj none => .ok (say s "!null")
   | .obj (some o) => setOne { s with log := s.log ++ [.visited o] } o
-  | .cont l =>
+  | a =>
     if cfg.fieldFan then
-      match s.lists l with
-      | none => .ub
-      | some rs => fanLoop setOne rs s
-    else .ok (say s "!cast")                   -- type test only: the pointer is not followed
-  | .arr rs => if cfg.fieldFan then fanLoop setOne rs s else .ok (say s "!cast")
+      match receivers s a with
+      | .group rs => fanLoop setOne rs s
+      | .ub => .ub
+      | _ => .ok (say s "!cast")
+    else .ok (say s "!cast")
 
 def stmt (cfg : Cfg) (s : State) : Stmt → Res
   | .act a => act cfg none s a
